@@ -21,7 +21,7 @@ def f12_tree():
 
 def run(tier):
     C = Check('C03', tier)
-    C.prove('Properties/C03.v', bridges={'Properties/C03T.v': [], 'Properties/C03W.v': []})
+    C.prove('Properties/C03.v', bridges={'Properties/C03T.v': [], 'Properties/C03W.v': [], 'Model/Recover.v': []})
     C.cov['tie']['protocol_code_generator + generated code'] = ('correspondence-only: real generator + generated deserializers executed; reference semantics '
                                                                'Model/Elab.v + Model/Deser.v over the reader model R')
     quick = tier == 'quick'
@@ -42,16 +42,18 @@ def run(tier):
             # uniformly random / empty / junk inputs directly
             for data in ([], [0xFF], [0x00], [0xFE] * 3, [rng.randrange(256) for _ in range(rng.randrange(1, 12))], [0xFF, 1, 0xFF, 0xFF, 2]):
                 jobs.append(dict(op='deser', cls=cls, data=data, chunked=rng.random() < 0.3))
-        entries.append(dict(name=t['name'], tree=t['tree'], jobs=jobs))
+        entries.append(dict(name=t['name'], tree=t['tree'], jobs=jobs, want_sources=True))
     f4 = dict(name='F4-shape', tree=f4_tree(), jobs=[dict(op='deser', cls='Holder', data=[2, 0xFF, 1], chunked=False),
                                                      dict(op='deser', cls='Holder', data=[2, 3, 4, 5], chunked=False)])
     f12 = dict(name='F12-shape', tree=f12_tree(), jobs=[dict(op='deser', cls='SplitLen', data=[2, 0xFF, 65, 66], chunked=False),
                                                        dict(op='deser', cls='SplitLen', data=[2, 3, 0xFF, 65, 66], chunked=False)])
     run_entries(C, runner, entries + [f4, f12])
+    recover_stream(C, entries, 'c03')
+    C.cov['tie']['generated classes (structure)'] = ('translation validation: tools/gen2instr.py recovers the instruction lists of every generated serialize / deserialize / __init__ from the SOURCE TEXT (fail-closed) and Model/Recover.v compares them with elab of the same tree (vm_compute): the theorems about the elaborated instruction lists apply to the code as emitted, for all objects and bytes')
     # ---- which classes does the termination theorem (C03_terminates_core) cover?  decided in Coq per tree
     prog = {}
     try:
-        fn = os.path.join(COQ, 'Cases', 'c03p.v')
+        fn = os.path.join(CASES, 'c03p.v')
         os.makedirs(os.path.dirname(fn), exist_ok=True)
         acc = [e for e in entries + [f4] if e['result'].get('accepted')]
         with open(fn, 'w') as f:
